@@ -241,6 +241,11 @@ is only ever read little-endian does not change the normal form) -/
 def Layout.normalizeAt (e : Endian) : Layout → Layout
   | .mk le m fs c => (Layout.mk (some (le.getD e)) m fs c).normalize
 
+/-- project every element of a `Vec` / array value -/
+def projAll {α : Type} (proj : Value → Option α) : List Value → Option (List α)
+  | [] => some []
+  | v :: vs => (proj v).bind fun a => (projAll proj vs).map (a :: ·)
+
 /-- the phrasing of every tie theorem: `model reader l = via proj (Layout.read e generated l)` —
 the hand-written reader is the generated layout followed by a pure projection of the values -/
 def via {α : Type} (proj : List Value → Option α) (x : Option (List Value × Bytes)) : Option (α × Bytes) :=
